@@ -182,13 +182,41 @@ def sign_op(r, tier, allow_empty_path, bad=False):
     return "%s %s %s %s %s %s" % (v, hx(keyid), hx(secret), hx(region), hx(x), gen_body(r, tier))
 
 
+def session_ops(r, tier):
+    """one process, one credential, one region, (almost) one instant: several requests for DIFFERENT services/variants in a
+    row, as an application does.  Anything remembered from one call (derived keys, dates, buffers) must not leak into the next."""
+    keyid, secret, region = gen_name(r, 1), gen_secret(r), r.choice([b"us-east-1", b"eu-west-1", gen_name(r, 1)])
+    t = gen_time(r)
+    ops = ["time %d" % t]
+    for i in range(r.range(2, 6)):
+        if r.chance(1, 4):
+            t2 = t + r.choice([1, 59, 3600, 86399, 86400])      # same or next day
+            ops.append("time %d" % t2)
+        if r.chance(1, 6):
+            secret = gen_secret(r)                               # rotated secret, same scope
+        v = r.weighted([("s3h", 25), ("s3q", 25), ("svc", 30), ("ddb", 20)])
+        if v in ("s3h", "s3q"):
+            last = gen_body(r, tier) if v == "s3h" else str(gen_expiry(r))
+            ops.append("%s %s %s %s %s %s %s %s" % (v, hx(keyid), hx(secret), hx(region), hx(r.choice([b"GET", b"PUT"])),
+                                                      hx(gen_name(r, 1)), hx(gen_path(r, False)), last))
+        elif v == "svc":
+            ops.append("%s %s %s %s %s %s" % (v, hx(keyid), hx(secret), hx(region),
+                                              hx(r.choice([b"ec2", b"sns", b"email", b"s3", b"dynamodb", b"sqs"])), gen_body(r, tier)))
+        else:
+            ops.append("%s %s %s %s %s %s" % (v, hx(keyid), hx(secret), hx(region),
+                                              hx(r.choice([b"GetItem", b"PutItem", b"Query"])), gen_body(r, tier)))
+    return ops
+
+
 def gen_aws(rng, tier, mult):
     n = (2000 if tier == "quick" else 20000) * mult
     cases = [["kat %d" % i for i in range(7)]]
     for ci in range(n):
         r = rng.fork("a%d" % ci)
         k = r.below(100)
-        if k < 70:
+        if k < 12:
+            cases.append(session_ops(r, tier))
+        elif k < 70:
             # one call under one clock value (empty paths only here)
             cases.append(["time %d" % gen_time(r), sign_op(r, tier, True)])
         elif k < 85:
